@@ -264,6 +264,31 @@ def check_exports(ctx, su, sv, s, scale=1.0):
                         break
             if not ok:
                 ctx.violate("exchange.export_stl_str", t2 + ["binary"], small, {"facets": [n, len(allf)]})
+            # the SAME object exported / tessellated repeatedly with different spacings: every output follows the spacing asked for
+            s_other = 1 if s != 1 else next((q for q in (2, 3, 4) if (su - 1) % q == 0 and (sv - 1) % q == 0), None)
+            if s_other is not None:
+                def ref_for(sp):
+                    vv, ff, off2 = [], [], 0
+                    for k in range(nsurf):
+                        r = build(SURFS[k % 2])
+                        r.sample_size_u, r.sample_size_v = su, sv
+                        r.tessellate(vertex_spacing=sp)
+                        vv += [list(v.data) for v in r.vertices]
+                        ff += [[i + off2 for i in f.vertex_ids] for f in r.faces]
+                        off2 += len(r.vertices)
+                    return vv, ff
+                same = target()
+                if nsurf == 1:
+                    same.tessellate()          # tessellated once with the default spacing before the first export
+                for sp in (s, s_other, s):
+                    txt = exchange.export_obj_str(same, vertex_spacing=sp)
+                    vs = [[float(x) for x in l.split()[1:]] for l in txt.splitlines() if l.startswith("v ")]
+                    fs = [[int(x) - 1 for x in l.split()[1:]] for l in txt.splitlines() if l.startswith("f ")]
+                    rv, rf = ref_for(sp)
+                    if not close_seq(vs, rv, 1e-12) or fs != rf:
+                        ctx.violate("exchange.export_obj_str", t2 + ["same_object_again", "spacing_now=%d" % sp], small,
+                                    {"n_v": [len(vs), len(rv)], "n_f": [len(fs), len(rf)]})
+                        break
             # container tessellation: vertex / face ids are offset per surface
             if nsurf >= 2:
                 c = target()
@@ -331,7 +356,7 @@ def run(ctx):
             check_trim(ctx, cs)
     if len(ops) < 3:
         raise core.MachineryError("vacuous model: %s" % ops)
-    for su, sv, s in ((3, 4, 1), (5, 3, 2), (4, 7, 3)):
+    for su, sv, s in ((3, 4, 1), (5, 3, 2), (4, 7, 3), (13, 9, 1), (9, 9, 4)):
         check_exports(ctx, su, sv, s)
     check_exports(ctx, 12, 9, 1, scale=0.001)
     nv = validate_meshes(ctx, meshes) if meshes else 0
